@@ -624,6 +624,11 @@ def _r_ident(ck, world, table) -> None:
             for f in fs:
                 if f[0] == 'eq' and ('const', '0') in f[1] and any(show(x) == f'len({s[1]}.indexed_axes)' for x in f[1]):
                     guard = 'no indexed axis'
+                # the list of indexed axes is empty: `not self.indexed_axes`, `not len(self.indexed_axes)`, `len(...) < 1`
+                axes_t = ('attr', s, 'indexed_axes')
+                len_t = ('call', ('var', 'len'), (axes_t,), ())
+                if (f[0] == 'truth' and f[2] is False and f[1] in (axes_t, len_t)) or f == ('lt', len_t, ('const', '1')) or f == ('le', len_t, ('const', '0')):
+                    guard = 'no indexed axis'
                 if f[0] == 'truth' and f[2] is True and f[1][0] == 'call' and f[1][1] == ('var', 'all'):
                     inner = show(f[1])
                     if 'isinstance' in inner and 'IdentityOperator' in inner and 'block_leaves' in inner:
